@@ -74,7 +74,29 @@ def gen_binary_cases(rng, sc, thorough):
     for t in ALLT:
         for c in car[t] + [rng.getrandbits(64) for _ in range(40)] + [1 << k for k in range(64)] + [(1 << k) - 1 for k in range(1, 65)]:
             cases.append('K %s %x' % (t, c))
+    # eval()'s EXPRCAST of a floating constant (float and double) to every integer type, signed and unsigned, of every width:
+    # all float carriers (range boundaries on both sides) plus NaNs of every kind and both infinities, which must be
+    # diagnosed (theorems C04_float_to_int_never_host_ub / C04_nan_to_int_diag; fixed finding nan-to-int-host-ub)
+    for ft in ('float', 'double'):
+        ops = sorted(set(car[ft] + NONFINITE_BITS + [rng.choice(NAN_BITS) ^ rng.getrandbits(51) for _ in range(4)]))
+        for t in G.INT_TYPES:
+            for c in ops:
+                cases.append('E k %s c %s %x' % (t, ft, c))
     return cases
+
+
+# quiet, negative quiet, signalling (smallest / largest payload), all-ones NaNs; +inf, -inf
+NAN_BITS = [0x7ff8000000000000, 0xfff8000000000000, 0x7ff0000000000001, 0xfff0000000000001, 0x7ff7ffffffffffff, 0x7fffffffffffffff, 0xffffffffffffffff]
+INF_BITS = [0x7ff0000000000000, 0xfff0000000000000]
+NONFINITE_BITS = NAN_BITS + INF_BITS
+
+
+def is_nonfinite(c):
+    return (c >> 52) & 0x7ff == 0x7ff
+
+
+def is_nan(c):
+    return is_nonfinite(c) and c & ((1 << 52) - 1) != 0
 
 
 def gen_tree(rng, sc, depth, want=None):
@@ -386,6 +408,12 @@ REJECT_CLI = [
 
 MUST_REJECT = REJECT_CLI[:17]
 MAY_REJECT = REJECT_CLI[17:]     # undefined conversions: a diagnostic is welcome, a crash is not
+# a NaN or an infinity has no integral part: the conversion is diagnosed (C04_nan_to_int_diag, fixed finding nan-to-int-host-ub)
+NONFINITE_REJECT = ['int a = (int)(0.0/0.0);\n', 'unsigned long a = (unsigned long)(0.0f/0.0f);\n', 'enum { A = (int)(0.0/0.0) };\n',
+                    'unsigned char a = (unsigned char)__builtin_nanf("");\n', 'long a = (long)-(0.0/0.0);\n',
+                    'long a = (long)(1.0/0.0);\n', 'unsigned a = (unsigned)(-1.0f/0.0f);\n', 'short a = (short)__builtin_inff();\n']
+REJECT_CLI += NONFINITE_REJECT
+MUST_REJECT += NONFINITE_REJECT
 
 
 def classify(expr, default, err=''):
@@ -448,6 +476,7 @@ def run(ctx):
     oracle = ctx.oracle('c04') if ok else None
     ctx.log('snapshot, coq and oracle ready')
     stats = dict(unit_cases=0, unit_binary=0, unit_unary=0, unit_cast=0, unit_trees=0, unit_outcomes={}, unit_hostub_skipped=0,
+                 unit_nonfinite_to_int=0, unit_nonfinite_to_int_diagnosed=0,
                  spec_crosschecks=0, cli_exprs=0, cli_observations=0, cli_units=0, cli_by_context={}, gcc_validated=0, gcc_spec_suspect=0,
                  fixed_cli=0, reject_cli=0, generator={})
     samples = []
@@ -522,8 +551,13 @@ def run(ctx):
                     oc = m if m.startswith('stop') else ('folded' if (l[0] != 'E' or m.startswith('ok c ')) else 'partial')
                     stats['unit_outcomes'][oc] = stats['unit_outcomes'].get(oc, 0) + 1
                     if m == 'stop hostub':
+                        # unreachable since the range tests reject NaN (C04_cast_const_never_host_ub); kept as a counter
                         stats['unit_hostub_skipped'] += 1
                         continue
+                    nf = NONFINITE_CAST.match(l)
+                    if nf and nf.group(1) != 'bool' and is_nonfinite(int(nf.group(2), 16)):
+                        stats['unit_nonfinite_to_int'] += 1
+                        stats['unit_nonfinite_to_int_diagnosed'] += (r == 'stop diag' and m == 'stop diag')
                     if l[0] != 'E' or ' b ' in l or ' k ' in l or ' - ' in l:
                         nontrivial.add(l)
                     if r != m:
@@ -535,6 +569,9 @@ def run(ctx):
                     j = rng.randrange(1, len(ls))
                     samples.append({'unit_case': ls[j], 'real': real[j], 'model': model[j]})
             ctx.ob('K-unit: eval.c binary/unary/cast/eval equal the extracted model on %d cases' % stats['unit_cases'], unit_ok)
+            ctx.ob('K-unit: NaN / +inf / -inf constants converted to an integer type are diagnosed by eval.c and by the model (%d of %d cases), never host-undefined (%d)'
+                   % (stats['unit_nonfinite_to_int_diagnosed'], stats['unit_nonfinite_to_int'], stats['unit_hostub_skipped']),
+                   stats['unit_nonfinite_to_int'] > 0 and stats['unit_nonfinite_to_int_diagnosed'] == stats['unit_nonfinite_to_int'] and stats['unit_hostub_skipped'] == 0)
 
     ctx.log('K-unit done')
     # ------------------------------------------------------------------ K-CLI
@@ -708,6 +745,7 @@ def min_unit(ctx, c, sc, targ):
 
 UNIT_VIOL_LIMIT = 3
 _unit_viol_count = {}
+NONFINITE_CAST = re.compile(r'^E k (\w+) c (?:float|double) ([0-9a-f]+)$')
 
 
 def unit_disagreement(ctx, targ, sc, line, real, model):
@@ -718,6 +756,18 @@ def unit_disagreement(ctx, targ, sc, line, real, model):
         if _unit_viol_count.get('trap', 0) < UNIT_VIOL_LIMIT:
             _unit_viol_count['trap'] = _unit_viol_count.get('trap', 0) + 1
             ctx.violation('eval() executes a trapping division (SIGFPE) on the tree `%s`' % line, '/* unit case (harness/c04), target %s */\n// %s\n' % (targ, line), 'c', key='unit-trap')
+        return
+    nf = NONFINITE_CAST.match(line)
+    if nf and nf.group(1) in G.INT_TYPES and nf.group(1) != 'bool' and is_nonfinite(int(nf.group(2), 16)) and real != 'stop diag':
+        # a NaN or an infinity has no integral part (C11 6.3.1.4p1): folding it means executing an undefined host conversion,
+        # and no run-time evaluation gives "the" value; eval() has to diagnose it like every other out-of-range constant
+        c = int(nf.group(2), 16)
+        kind = 'nan' if is_nan(c) else 'inf'
+        if _unit_viol_count.get(kind, 0) < UNIT_VIOL_LIMIT:
+            _unit_viol_count[kind] = _unit_viol_count.get(kind, 0) + 1
+            ctx.violation('eval() folds the conversion of a %s constant (bits %x) to %s into `%s` instead of a diagnostic: undefined host conversion reached'
+                          % ('NaN' if kind == 'nan' else 'infinite', c, nf.group(1), real),
+                          '/* unit case (harness/c04), target %s */\n// %s\n' % (targ, line), 'c', key='unit-%s-to-int' % kind)
         return
     if p[0] != 'B' or p[1] not in G.BIN_OPS or p[2] not in G.INT_TYPES or p[2] == 'bool':
         return
